@@ -98,6 +98,13 @@ def run(ctx):
                 if before.endswith('"') and after.startswith('"'):
                     quoted.append((tpl, arg_exprs[k], fcall["sp"]))
                 k += 1
+    # a value rendered with Debug formatting ({:?}) gets Rust's escapes (\t, \u{301}, \u{200b}); a VPL string literal keeps
+    # its text verbatim, so the declaration then carries another value than the stored one
+    dbg = [y for y in H.walk(h["body"]) if y.get("k") == "call" and isinstance(y.get("callee"), str) and "fmt::rt::Argument" in y["callee"] and y["callee"].endswith("::new_debug")]
+    if dbg:
+        ctx.violation("sanit", "to_vpl_declaration:debug-format", "to_vpl_declaration renders a parameter with Debug formatting (`{:?}`): control characters, combining marks and non-printable code points come out as Rust escapes (\\t, \\u{301}), which the VPL parser does not unescape — the injected declaration carries a different value than the stored one", site=dbg[0]["sp"])
+    else:
+        ctx.ok("sanit", "to_vpl_declaration:display-format", "values are interpolated with Display formatting")
     ctx.floor("sanit", "format templates in to_vpl_declaration", n_templates, 2)
     ctx.floor("sanit", "quoted interpolations", len(quoted), 1)
     # validation side
